@@ -98,6 +98,13 @@ def e_append(rng, text, lang, protect_top=0):
     uid = rng.randint(10 ** 6, 10 ** 7)
     tail = {"py": "\n\ndef appended_%d(value):\n    return value\n", "ts": "\nfunction appended_%d(value: number): number {\n  return value;\n}\n",
             "js": "\nfunction appended_%d(value) {\n  return value;\n}\n", "rs": "\nfn appended_%d(value: i64) -> i64 {\n    value\n}\n"}[lang] % uid
+    # the appended function is free to use the names of LOCAL variables of the functions above it for things of its own (a list, a number):
+    # what a name means in one function says nothing about another function
+    local = sorted(set(re.findall(r"^\s+(?:let |const |var )?([a-z_][a-z_0-9]{2,})\s*(?::\s*\w+)?\s*=\s*[^=]", text, re.M)) - {"self", "this", "return"})
+    picks = rng.sample(local, min(len(local), 3)) if rng.random() < 0.6 else []
+    if picks and lang in ("py", "ts", "js"):
+        body = "".join({"py": "    %s = %s\n", "ts": "  let %s: any = %s;\n", "js": "  let %s = %s;\n"}[lang] % (nm, rng.choice(["[\"u%d\"]", "[\"u%d\", \"v\"]"]) % rng.randint(10 ** 6, 10 ** 7)) for nm in picks)  # (unique values: the same line appended to two files would be a real duplicate)
+        tail = tail.replace("    return value\n", body + "    return value\n", 1) if lang == "py" else tail.replace("  return value;\n", body + "  return value;\n", 1)
     return (text if text.endswith("\n") else text + "\n") + tail, (lambda l: l), {"columns": True}
 
 
